@@ -804,3 +804,25 @@ func TestC02Handler(t *testing.T) {
 		Rule: "real server handler in-process, the harness writes the commands (one glob / one per file / the same file twice, with a generated gap between commands) and reads the output with 16 B..32 KiB buffers, pausing 20 ms..1.1 s (rarely 5.6 s) before a generated message number or 0..201 messages before the expected end; 1..6 files with line counts around the queue capacities {0,1,2,50,99,100,101,150,199,200,201,202,250,400}; MaxConcurrentCats in {1,2,5}; 0-2 hook-placed delays (shutdown handshake, command accounting, limiter, the n-th line taken from the queue). The harness behaves like the client: it stops taking lines when '.syn close connection' arrives and acknowledges it. Oracle: the lines that arrived before the close handshake are exactly the selected lines per file, once, in order; the handshake is offered and the session ends within 10 s of the acknowledgement. Clean / free schedule space as in the e2e layer. Non-trivial = >=2 commands, more files than limiter slots, or a paced consumer with > 200 selected lines",
 		Gen: genH, Eval: evalH})
 }
+
+// TestC02Witness re-checks the open known finding on a fixed input ('dcat empty.txt big.txt', the reproducer of the
+// design round), so that its KNOWN-FINDING line is printed while it stands and disappears by itself once it is repaired.
+func TestC02Witness(t *testing.T) {
+	rec := lib.NewRec("C02", "witness", "fixed input: dcat --plain over an empty file and a 5000-line file given as two commands, serverless, fast consumer, up to 12 attempts; re-checks the known finding session-ends-before-all-commands-arrived")
+	defer rec.Flush()
+	c := e2eCase{Files: []fileSpec{{Lines: 0, LenK: 1}, {Lines: 5000, LenK: 1}}, Shape: "list", Cats: 2, Pace: pace{Kind: "fast", Chunk: 65536}}
+	for i := 0; i < 12; i++ {
+		o, _ := runE2E(c, false)
+		rec.Case(fmt.Sprintf("witness-%d", i), true, "witness-run")
+		if o.Fail == "" {
+			continue
+		}
+		if o.KnownKey == "" {
+			path := rec.Violation(c, "the witness input fails without the known finding's trace signature: "+o.Fail, o.Expected, o.Observed, o.Trace)
+			t.Fatalf("property C02: %s\nreplay=%s", o.Fail, path)
+		}
+		lib.Witness(t, rec, "C02", "session-ends-before-all-commands-arrived", c, func() lib.Outcome { return o })
+		return
+	}
+	rec.Class("witness-passes:session-ends-before-all-commands-arrived", 1)
+}
